@@ -317,6 +317,12 @@ func FieldMenu() []FieldVariant {
 	add("F24-options-on-both-sides", "Opt string `json:\"user_id,omitempty\" xml:\"u,attr\"` // @tag json:\"id,string\"", true)
 	// first keys that start with the letters of the marker word itself (a, g, t)
 	add("F25-first-key-starts-with-marker-letters", "Gorm string `json:\"gorm_f\"` // @tag gorm:\"primaryKey\" toml:\"conf\"", true)
+	// the trailing comment starts like a linter directive (go/ast drops such comments from CommentGroup.Text)
+	add("F26-directive-style-comment", "Buyer string `json:\"buyer\"` //nolint:lll // 买家 @tag json:\"buyer_name\" valid:\"required,to=1~20\"", true)
+	add("F26-directive-style-comment-line", "Lined string `json:\"lined\"` //line x.go:1 @tag valid:\"required\"", true)
+	// kept keys whose values hold commas followed by several blanks, and an override of exactly the old length
+	add("F27-kept-value-with-comma-and-blanks", "Desc string `json:\"desc\" description:\"first name,   then family name,  or both\"` // @tag valid:\"required, to=1~3\"", true)
+	add("F27-same-length-override", "Nick string `json:\"name,omitempty\"` // @tag json:\"nick,omitempty\"", true)
 	add("F25-first-key-avro-tag-a", "Avro string `json:\"avro_f\"` // @tag avro:\"alt_name\" tag:\"x\" a:\"1\" gg:\"2\"", true)
 	// keys that are a suffix / prefix of another key, same value: key matching must be on whole keys
 	add("F17-key-suffix-of-existing", "KeySuffix string `binding_valid:\"required\" json:\"ks\"` // @tag valid:\"required\"", true)
@@ -345,6 +351,8 @@ func DupKeyMenu() []FieldVariant {
 		{"D10-bare-word-in-literal", "Bare string `json:\"bw\" omitempty  xml:\"x\"` // @tag valid:\"required\"", true},
 		{"D13-keys-with-dash-and-dot", "Ext string `json:\"ext\"` // @tag x-order:\"2\" json.name:\"n\"", true},
 		{"D14-empty-raw-tag-literal", "EmptyRaw string `` // @tag valid:\"required\"", true},
+		{"D15-key-twice-in-existing-tag-and-overridden", "Twice string `json:\"name\" xml:\"x\" json:\"nick\"` // @tag json:\"nick2\"", true},
+		{"D16-key-twice-in-existing-tag-not-overridden", "Twice2 string `json:\"name\" json:\"nick\"` // @tag valid:\"required\"", true},
 		{"D11-only-unrecognised-text", "OnlyU string `bson:\"\"` // @tag valid:\"required\"", true},
 	}
 }
